@@ -164,17 +164,18 @@ def hostfile(layout, np):
     return _hostfiles[key]
 
 
-ERR_PATTERNS = [("deadlock", re.compile(r"[Dd]eadlock|Oops ! Deadlock")),
-                ("segfault", re.compile(r"Segmentation fault|segfault|SIGSEGV|Access violation|Bad access|signal 11|double free|corrupted|munmap_chunk|malloc\(\)|free\(\): invalid|stack smashing|SIGABRT.*free|AddressSanitizer")),
+ERR_PATTERNS = [("deadlock", re.compile(r"[Dd]eadlock")),
+                ("segfault", re.compile(r"Segmentation fault|exit code 139|double free|corrupted|munmap_chunk|invalid pointer|invalid size|invalid next size|stack smashing|Access violation|Bad access")),
+                ("fpe", re.compile(r"Floating point exception|exit code 136")),
                 ("timeout", re.compile(r"\[timeout after")),
-                ("explicit", re.compile(r"xbt_assert|Assertion|assertion|xbt_die|MPI_ERR|MPI error|Unhandled exception|error|Error|not supported|only works|must be"))]
+                ("explicit", re.compile(r"Uncaught exception|Assertion|xbt_die|MPI_ERR|can't be used|not supported|not implemented"))]
 
 
 def classify_error(text):
     for name, pat in ERR_PATTERNS:
         if pat.search(text):
             return name
-    return "silent-exit"
+    return "abort"
 
 
 def run_batch(prog, job, idxs, timeout):
@@ -263,3 +264,248 @@ def cases_for(kinds, np, roots, counts_sel=None, modes=(0,)):
                 for m in modes:
                     cs.append((k, root, c, m))
     return cs
+
+
+# ----------------------------------------------------------------------------- the check
+
+DIRECT_CODES = [t * 6 + o for t in (0, 1) for o in range(6) if not (t == 1 and o == 4)]   # no BXOR on double
+CORPUS = [  # (coll, algo, np, layout, (kind, root, count, mode)) -- boundary / regression cases, run first
+    ("reduce", "ompi_chain", 4, "rr", (1, 0, 0, 0)),
+    ("bcast", "flattree_pipeline", 4, "rr", (0, 0, 20011, 0)),
+    ("bcast", "ompi_split_bintree", 4, "rr", (0, 0, 1, 0)),
+    ("scatter", "ompi_linear_nb", 4, "rr", (5, 1, 1, 0)),
+    ("ireduce", "-", 4, "rr", (101, 0, 1, 0)),
+    ("allreduce", "default", 3, "rr", (2, 0, 2, 0)),
+    ("alltoallv", "default", 5, "rr", (10, 0, 0, 0)),
+    ("gatherv", "-", 5, "rr", (4, 2, 1, 0)),
+]
+
+
+def count_class(kind, np, count):
+    return "c0" if count == 0 else ("cl" if count == large_count(kind) else "cs")
+
+
+def build_jobs(ctx, entries):
+    rng = ctx.rng
+    jobs = []
+    for coll, algo, np, layout, case in CORPUS:
+        jobs.append(Job(coll, algo, np, [case], layout))
+    pow2 = [2, 4, 8, 16]
+    other = [3, 5, 6, 7, 9, 10, 11, 12, 13, 14, 15, 17]
+    for coll, algo, kinds in entries:
+        if not kinds:
+            continue
+        if ctx.quick:
+            # rotating slice: every algorithm at one power of two and one other size (seeded), np=1 now and then,
+            # two roots, every count; one direct sample and one reweighted-data case per job
+            nps = [rng.choice(pow2), rng.choice(other)]
+            if rng.random() < 0.15:
+                nps.append(1)
+            for np in nps:
+                roots = sorted(set([rng.randrange(np), rng.choice([0, np - 1])]))
+                cases = cases_for(kinds, np, roots)
+                extra = []
+                for k in kinds:
+                    root = rng.randrange(np)
+                    c = rng.choice([1, 2, np + 1])
+                    extra.append((k, root, c, rng.randint(1, 4)))
+                    if k % 100 in REDUCING:
+                        extra.append((k, root, c, -1 - rng.choice(DIRECT_CODES)))
+                layout = "blk" if rng.random() < 0.3 else "rr"
+                jobs.append(Job(coll, algo, np, cases + extra, layout))
+        else:
+            for np in range(1, MAXNP + 1):
+                cases = cases_for(kinds, np, list(range(np)))
+                extra = []
+                for k in kinds:
+                    for root in sorted(set([0, np - 1, rng.randrange(np)])):
+                        for c in (1, np + 1):
+                            extra.append((k, root, c, rng.randint(1, 4)))
+                            if k % 100 in REDUCING:
+                                for code in DIRECT_CODES:
+                                    extra.append((k, root, c, -1 - code))
+                jobs.append(Job(coll, algo, np, cases + extra, "rr"))
+                # a second host layout (4 consecutive ranks per host) for a slice of the grid: SMP-aware algorithms
+                if np >= 4:
+                    sl = cases_for(kinds, np, sorted(set([0, rng.randrange(np)])))
+                    jobs.append(Job(coll, algo, np, sl, "blk"))
+    return jobs
+
+
+def obs_line(kind, np, root, count, ranks):
+    line = [kind, np, root, count]
+    for r in range(np):
+        v = ranks[r][2]
+        line += [v[0] % 1000000] + list(v[1:])
+    return line
+
+
+def explain(kind, np, root, count, ranks, bad):
+    out = []
+    for r in bad[:2]:
+        if r < 0 or r >= np:
+            out.append("observation not parsable")
+            continue
+        runs, tr = parse_runs(ranks[r][2])
+        out.append("rank %d holds %s%s, MPI defines %s" % (r, fmt_runs(runs), " (truncated)" if tr else "",
+                                                       fmt_runs(py_spec(kind, np, root, count, r)) or "nothing"))
+    return "; ".join(out)
+
+
+def run(ctx):
+    ctx.simgrid()
+    table, single, nbc = gencolls.generate(fw.REPO, fw.COQ)
+    ctx.prove()
+    prog = fw.build_smpi_prog("smpi_c29")
+    entries = all_entries(table, single, nbc)
+    for coll, algo, kinds in entries:
+        if not kinds:
+            ctx.mismatch("collective-without-spec", "collective %s (algorithm %s) of the regenerated table has no specification/kind in checks/C29.py" % (coll, algo), {"coll": coll, "algo": algo})
+    if ctx.replay:
+        rp = json.load(open(ctx.replay)).get("case") or {}
+        jobs = [Job(rp["coll"], rp["algo"], rp["np"], [tuple(rp["case"])], rp.get("layout", "rr"))]
+    else:
+        jobs = build_jobs(ctx, entries)
+    ctx.cov["rule"] = ("one case = (collective, algorithm, np, host layout, kind, root, count, data mode) run by smpirun on provenance data; "
+                       "non-trivial = np >= 2 and (count >= 1 or barrier), i.e. data really moves between ranks; distinct = distinct case tuples")
+    t0 = time.time()
+    with concurrent.futures.ThreadPoolExecutor(max(4, fw.NCPU)) as ex:
+        jobs = list(ex.map(lambda j: run_job(prog, j), jobs))
+    t_run = time.time() - t0
+
+    # ---- collect the oracle queries (deduplicated: correct algorithms all produce the same observation)
+    q_check, q_barrier, q_direct = {}, {}, {}
+    todo = []
+    dist = {"cases": 0, "explicit_error": 0, "by_kind": {}, "np": {}, "count_class": {}, "modes": {"provenance": 0, "reweighted": 0, "direct": 0},
+            "layouts": {}, "jobs": len(jobs), "smpirun_wall_s": round(t_run, 1)}
+    exercised = set()
+    for job in jobs:
+        for i, case in enumerate(job.cases):
+            kind, root, count, mode = case
+            res = job.results.get(i)
+            cd = {"coll": job.coll, "algo": job.algo, "np": job.np, "layout": job.layout, "case": list(case)}
+            key = (job.coll, job.algo, job.np, job.layout, case)
+            dist["cases"] += 1
+            dist["by_kind"][KNAME[kind % 100] + ("(nb)" if kind >= 100 else "")] = dist["by_kind"].get(KNAME[kind % 100] + ("(nb)" if kind >= 100 else ""), 0) + 1
+            dist["np"][job.np] = dist["np"].get(job.np, 0) + 1
+            cc = count_class(kind, job.np, count)
+            dist["count_class"][cc] = dist["count_class"].get(cc, 0) + 1
+            dist["modes"]["direct" if mode < 0 else ("reweighted" if mode > 0 else "provenance")] += 1
+            dist["layouts"][job.layout] = dist["layouts"].get(job.layout, 0) + 1
+            nontriv = job.np >= 2 and (count >= 1 or kind % 100 == 16)
+            exercised.add((job.coll, job.algo))
+            sigbase = "%s:%s" % (job.coll, job.algo)
+            if res is None:
+                ctx.case(key, nontriv)
+                ctx.fail(sigbase + ":no-output:" + cc, "%s algorithm %s np=%d %s root=%d count=%d: no output" % (job.coll, job.algo, job.np, KNAME[kind % 100], root, count), cd)
+                continue
+            if res["error"]:
+                ctx.case(key, nontriv)
+                if res["error"] == "explicit":
+                    dist["explicit_error"] += 1
+                else:
+                    ctx.fail("%s:%s:%s" % (sigbase, res["error"], cc),
+                             "%s algorithm %s, np=%d, %s root=%d count=%d mode=%d: the run ends with %s instead of a result or an explicit error: %s"
+                             % (job.coll, job.algo, job.np, KNAME[kind % 100], root, count, mode, res["error"], res["message"][-500:]), cd)
+                continue
+            ranks = res["ranks"]
+            if any(ranks[r][0] != 0 for r in range(job.np)):
+                ctx.case(key, nontriv)
+                dist["explicit_error"] += 1       # MPI error code returned: explicit error
+                continue
+            if mode < 0:
+                o = (-1 - mode) % 6
+                q = (o, kind, job.np, root, count)
+                q_direct.setdefault(q, None)
+                todo.append(("direct", q, job, i, cd, key, nontriv, sigbase, cc))
+            elif kind % 100 == 16:
+                q = tuple([job.np] + [x for r in range(job.np) for x in ranks[r][2][4:6]])
+                q_barrier.setdefault(q, None)
+                todo.append(("barrier", q, job, i, cd, key, nontriv, sigbase, cc))
+            else:
+                q = tuple(obs_line(kind, job.np, root, count, ranks))
+                q_check.setdefault(q, None)
+                todo.append(("check", q, job, i, cd, key, nontriv, sigbase, cc))
+    for qs, fn in ((q_check, "run_c29_check"), (q_barrier, "run_c29_barrier"), (q_direct, "run_c29_direct")):
+        keys = list(qs.keys())
+        if keys:
+            ans = fw.run_model("c29", fn, [list(k) for k in keys])
+            for k, a in zip(keys, ans):
+                qs[k] = a
+    dist["distinct_observations_judged"] = len(q_check) + len(q_barrier)
+    nsample = 0
+    obliv = {}
+    for what, q, job, i, cd, key, nontriv, sigbase, cc in todo:
+        kind, root, count, mode = job.cases[i]
+        ranks = job.results[i]["ranks"]
+        head = "%s algorithm %s, np=%d (%s), %s root=%d count=%d" % (job.coll, job.algo, job.np, job.layout, KNAME[kind % 100] + ("(non-blocking)" if kind >= 100 else ""), root, count)
+        sample = None
+        if what == "check":
+            bad = q_check[q]
+            if nontriv and nsample < 6 and not bad:
+                nsample += 1
+                sample = dict(cd, observation_rank0=fmt_runs(parse_runs(ranks[0][2])[0]), verdict="coll_ok")
+            ctx.case(key, nontriv, sample)
+            if bad:
+                ctx.fail("%s:wrong:%s" % (sigbase, cc), head + (" (reweighted data)" if mode > 0 else "") + ": " + explain(kind, job.np, root, count, ranks, bad), cd)
+            obliv.setdefault((id(job), kind, root, count), {})[mode] = [ranks[r][1] for r in range(job.np)]
+        elif what == "barrier":
+            ctx.case(key, nontriv)
+            if q_barrier[q] != [1]:
+                ent = [ranks[r][2][4] for r in range(job.np)]
+                exi = [ranks[r][2][5] for r in range(job.np)]
+                ctx.fail("%s:wrong:%s" % (sigbase, cc), head + ": a rank left the barrier at %d ns before the last one entered at %d ns" % (min(exi), max(ent)), cd)
+        else:
+            ctx.case(key, nontriv)
+            exp = q_direct[q]
+            got = []
+            for r in range(job.np):
+                v = ranks[r][2]
+                got += [v[0]] + list(v[1:1 + v[0]])
+            if got != exp:
+                code = -1 - mode
+                ctx.fail("%s:direct-wrong:%s" % (sigbase, cc), head + " %s %s: buffers %s, sequential reference %s" % (
+                    ["int", "double"][code // 6], ["SUM", "PROD", "MAX", "MIN", "BXOR", "MAXLOC"][code % 6], got[:24], exp[:24]), cd)
+    # obliviousness: same (kind, root, count) with different data must take the same simulated time on every rank
+    nob, nobdiff = 0, 0
+    for k, d in obliv.items():
+        if 0 in d:
+            for m, t in d.items():
+                if m > 0:
+                    nob += 1
+                    if any(abs(a - b) > 1e-6 * max(a, b, 1) + 2000 for a, b in zip(t, d[0])):
+                        nobdiff += 1
+    dist["obliviousness_pairs"] = nob
+    dist["obliviousness_pairs_with_different_timing"] = nobdiff
+    if nobdiff:
+        ctx.notes.append("%d of %d (provenance, reweighted) pairs differ in simulated duration: the message trace of some algorithm depends on the data" % (nobdiff, nob))
+    if not ctx.replay:
+        for coll, algo, kinds in entries:
+            if kinds and (coll, algo) not in exercised:
+                ctx.mismatch("algorithm-not-exercised", "%s:%s is selectable but no case ran it" % (coll, algo), {"coll": coll, "algo": algo})
+    dist["algorithms"] = len(entries)
+    ctx.cov["input_distribution"] = dist
+    ctx.assumptions += [
+        "collective algorithms are data-oblivious schedules of copies and operator applications (control flow depends on np, rank, root, counts, "
+        "timing, never on buffer contents); sampled by re-running cases with reweighted data and comparing simulated durations",
+        "the user-defined MPI_Op and MPI_Type_contiguous(34, MPI_UINT64_T) path of smpi is the same code path as for predefined types, except in "
+        "algorithms that explicitly refuse derived types/user ops (reduce:rab, allreduce:rab*): those are judged on the direct samples only",
+        "np <= 17; hosts of small_platform.xml, ranks round-robin or 4 per host; counts {0,1,2,np-1,np,np+1,large}; v-collectives use counts c + r mod 3 with one untouched gap cell between blocks",
+        "floating-point SUM/PROD order is left free by MPI: direct samples use integer-valued doubles so that every order gives the same bits"]
+
+META = {
+    "level": "proof",
+    "text": "Coq (unbounded in data, datatype and operator): C29_free_monoid_lifting - a data-oblivious schedule that leaves the MPI-specified "
+            "multisets of provenance labels in its output cells leaves, in every commutative monoid and for every input, the fold of exactly those "
+            "contributions (hom_run, hom_perm, hom_unique: the unique homomorphism from the free commutative monoid); C29_coll_ok_correct - the "
+            "extracted checker accepts exactly the buffers MPI defines (C29_spec_* give them cell by cell); C29_compact_faithful - the counter-vector "
+            "encoding of provenance used by the harness determines the multiset. Enumerated, not proved: (algorithm, np<=17, root, count) - every "
+            "selectable algorithm of the table regenerated from smpi_coll.cpp plus the single/non-blocking collectives is run by smpirun on provenance "
+            "data and judged by the checker; {int,double}x{SUM,PROD,MAX,MIN,BXOR,MAXLOC} direct samples are compared with the Coq reference.",
+    "note": "Trusted: Coq kernel, extraction, harness/smpi_c29.c (data generation, decode of counter vectors into runs), error classification in "
+            "checks/C29.py. Assumed: obliviousness of the algorithms (sampled by a timing comparison, reported in the evidence). Not covered: np > 17, "
+            "MPI_IN_PLACE, non-commutative operators, inter-communicators. Explicit errors (MPI error code, xbt_assert/exception message) are accepted; "
+            "wrong buffers, crashes, deadlocks are violations (known ones listed in KNOWN_FINDINGS.txt by collective:algorithm:class:count-class).",
+    "technique": "Coq proof (free commutative monoid lifting, verified checker) + translator for the algorithm table + exhaustive enumeration of the configuration grid on provenance data",
+    "claimed": False,
+}
